@@ -171,6 +171,32 @@ class Ptr:
         return hash((id(self.env), self.d, self.prefix))
 
 
+class ListFrame:
+    """an array of records looked at as a frame: the element index is the variable (for `p->member` with p pointing into the array)"""
+    def __init__(self, lst):
+        self.lst = lst
+
+    def _fix(self, k):
+        if not isinstance(self.lst[k], dict):
+            self.lst[k] = {}
+        return self.lst[k]
+
+    def get(self, k, default=None):
+        return self._fix(k) if 0 <= k < len(self.lst) else default
+
+    def __getitem__(self, k):
+        return self._fix(k)
+
+    def __setitem__(self, k, v):
+        self.lst[k] = v
+
+    def setdefault(self, k, v):
+        return self._fix(k)
+
+    def __contains__(self, k):
+        return isinstance(k, int) and 0 <= k < len(self.lst)
+
+
 class Heap(dict):
     """cells handed out by calloc / malloc: id -> record (flattened member paths)"""
     def new(self):
@@ -263,6 +289,7 @@ class Folder:
         if n is not None and n.get("k") == "UnaryOperator" and n.get("op") == "*":
             pv = self.ev(n["c"][0])
             if isinstance(pv, (CPtr, Ptr)):
+                self._deref_t = n.get("t")
                 return ("deref", pv, 0)
             raise NotConst("dereference of a non-pointer")
         if n is not None and n.get("k") == "ArraySubscriptExpr":
@@ -271,6 +298,7 @@ class Folder:
             if isinstance(base, list):
                 base = CPtr(base, 0)
             if isinstance(base, CPtr) and isinstance(idx, int):
+                self._deref_t = n.get("t")
                 return ("deref", base, idx)
             raise NotConst("subscript lvalue")
         if n is not None and n.get("k") == "MemberExpr":
@@ -293,6 +321,11 @@ class Folder:
             if arrow_base is not None:
                 # p->a.b : the pointer is whatever the base expression evaluates to (a variable, another member, a call)
                 pv = self.ev(arrow_base)
+                if isinstance(pv, list):
+                    pv = CPtr(pv, 0)
+                if isinstance(pv, CPtr) and 0 <= pv.off < len(pv.buf) and (isinstance(pv.buf[pv.off], dict) or pv.buf[pv.off] == 0):
+                    # a pointer into an array of records
+                    pv = Ptr(ListFrame(pv.buf), pv.off, None)
                 if isinstance(pv, Ptr):
                     path = ".".join(reversed(names))
                     if arrow_rec is not None:
@@ -378,10 +411,32 @@ class Folder:
         if key[0] == "deref":
             pv, i = key[1], key[2]
             if isinstance(pv, CPtr):
+                if isinstance(v, dict) and 0 <= pv.off + i < len(pv.buf) and (isinstance(pv.buf[pv.off + i], dict) or pv.buf[pv.off + i] == 0):
+                    pv.buf[pv.off + i] = dict(v)
+                    return
+                if isinstance(v, (CPtr, Ptr)) and 0 <= pv.off + i < len(pv.buf):
+                    pv.buf[pv.off + i] = v
+                    return
                 if not isinstance(v, int):
                     raise NotConst("non-integer stored into an array")
-                pv.put(v & 0xff if -256 < v < 256 and len(pv.buf) and isinstance(pv.buf[0], int) and getattr(pv, "_bytes", True) else v, i)
+                ty = self.types[self._deref_t] if getattr(self, "_deref_t", None) is not None else None
+                if ty is not None and ty.get("int") and ty.get("w"):
+                    # the element keeps what fits its type; bytes are kept unsigned (text buffers compare against literals that way)
+                    w = ty["w"]
+                    v &= (1 << w) - 1
+                    if w > 8 and ty.get("sg") and v >= 1 << (w - 1):
+                        v -= 1 << w
+                    pv.put(v, i)
+                else:
+                    pv.put(v & 0xff if -256 < v < 256 and len(pv.buf) and isinstance(pv.buf[0], int) else v, i)
             else:
+                old = pv.env.get(pv.d) if hasattr(pv.env, "get") else None
+                if isinstance(v, dict) and isinstance(old, dict):
+                    # assigning a record leaves what lies behind it (a flexible array member's storage) alone
+                    v = dict(v)
+                    for k2, v2 in old.items():
+                        if k2 not in v and isinstance(v2, (CPtr, list)):
+                            v[k2] = v2
                 pv.env[pv.d] = v
             return
         d, path, t = key
@@ -500,7 +555,7 @@ class Folder:
             if "v" in n:
                 return n["v"]
             raise NotConst("free variable %s" % n.get("n"))
-        if k in ("IntegerLiteral", "CharacterLiteral", "UnaryExprOrTypeTraitExpr") and "v" in n:
+        if k in ("IntegerLiteral", "CharacterLiteral", "UnaryExprOrTypeTraitExpr", "OffsetOfExpr") and "v" in n:
             return n["v"]
         if k == "StringLiteral" and isinstance(n.get("s"), str):
             return CPtr(list(n["s"].encode("latin-1", "replace")) + [0], 0)
@@ -517,6 +572,8 @@ class Folder:
                         key = None
                     if isinstance(key, tuple) and isinstance(key[0], Ptr):
                         have = key[0].env.get(key[0].d, {})
+                        if isinstance(have.get(key[1]), CPtr):
+                            return have.get(key[1])
                         if not isinstance(have.get(key[1]), list):
                             return Ptr(key[0].env, key[0].d, None, prefix=key[1])
             v = self.ev(n["c"][0])
@@ -597,6 +654,8 @@ class Folder:
                 if x is not None and x.get("k") == "ArraySubscriptExpr":
                     key = self.lv(x)
                     return CPtr(key[1].buf, key[1].off + key[2])
+                if x is not None and x.get("k") == "DeclRefExpr" and x.get("dk") == "gvar" and x.get("d") in self._static_ds:
+                    return Ptr(self.env, x["d"], x.get("t"))
                 if x is not None and x.get("k") == "DeclRefExpr" and x.get("dk") == "gvar":
                     # the address of a constant record with static storage (`static const struct strpd_s d0 = {0}` to compare with)
                     ty = self.types[x["t"]] if x.get("t") is not None else {}
@@ -765,7 +824,8 @@ class Folder:
                     return CPtr(p_.buf, p_.off + i_)
                 if op == "-" and p_ is a:
                     return CPtr(p_.buf, p_.off - i_)
-                if op in ("==", "!=") and i_ == 0:
+                if op in ("==", "!=") and i_ in (0, -1, (1 << 64) - 1):
+                    # NULL, MAP_FAILED: an object's address is neither
                     return int(op == "!=")
             raise NotConst("pointer arithmetic %s" % op)
         if isinstance(a, Ptr) or isinstance(b, Ptr):
@@ -774,7 +834,7 @@ class Folder:
                 return int(op == "!=")
             if op in ("==", "!=") and isinstance(a, Ptr) and isinstance(b, Ptr):
                 return int((a == b) == (op == "=="))
-            raise NotConst("pointer arithmetic")
+            raise NotConst("pointer arithmetic %s on a record address (%s)" % (op, expr_text_safe(n) if isinstance(n, dict) and n.get("k") else ""))
         if isinstance(a, Aff) or isinstance(b, Aff):
             return self.arith_aff(op, a, b)
         if op == "+":
